@@ -35,6 +35,7 @@ type HarnessSpec struct {
 	Summaries []string `json:"summaries,omitempty"` // merged summaries of real code (VxSum_*)
 	Specs     []string `json:"specs,omitempty"`     // specification summaries (VxSpec_*), proved by Lemmas
 	Lemmas    []string `json:"lemmas,omitempty"`    // lemma harnesses: real code == spec summary
+	Labels    []string `json:"labels,omitempty"`  // assertion label prefixes checked (others are skipped)
 	Covers    []string `json:"covers,omitempty"` // labels that must be reached (vacuity guard)
 	Thorough  bool     `json:"thorough_only,omitempty"`
 	Env       map[string]string `json:"env,omitempty"`
@@ -98,18 +99,25 @@ func overlayFor(pkg string) (map[string][]byte, map[string]string, error) {
 		ov[virt] = b
 		paths[virt] = filepath.Join(dir, e.Name())
 	}
-	// shared primitives, instantiated for the package
-	tmpl, err := os.ReadFile(filepath.Join(verifDir, "harness", "prims.go.tmpl"))
-	if err != nil {
-		return nil, nil, err
+	// shared primitives and oracles, instantiated for the package
+	for _, name := range []string{"prims", "common"} {
+		if name == "common" {
+			if _, err := os.Stat(filepath.Join(dir, "nocommon")); err == nil {
+				continue
+			}
+		}
+		tmpl, err := os.ReadFile(filepath.Join(verifDir, "harness", name+".go.tmpl"))
+		if err != nil {
+			return nil, nil, err
+		}
+		src := strings.Replace(string(tmpl), "package PKG", "package "+pkgName, 1)
+		virt := filepath.Join(pd, "zz_vx_"+name+".go")
+		ov[virt] = []byte(src)
+		gen := filepath.Join(verifDir, "build", "gen", strings.ReplaceAll(pkg, "/", "_")+"_"+name+".go")
+		os.MkdirAll(filepath.Dir(gen), 0o755)
+		os.WriteFile(gen, []byte(src), 0o644)
+		paths[virt] = gen
 	}
-	prims := strings.Replace(string(tmpl), "package PKG", "package "+pkgName, 1)
-	virt := filepath.Join(pd, "zz_vx_prims.go")
-	ov[virt] = []byte(prims)
-	gen := filepath.Join(verifDir, "build", "gen", strings.ReplaceAll(pkg, "/", "_")+"_prims.go")
-	os.MkdirAll(filepath.Dir(gen), 0o755)
-	os.WriteFile(gen, []byte(prims), 0o644)
-	paths[virt] = gen
 	return ov, paths, nil
 }
 
@@ -249,6 +257,7 @@ func cmdRun(args []string) int {
 	doReplay := fs.Bool("replay", true, "")
 	deadline := fs.Duration("deadline", 0, "")
 	prof := fs.String("cpuprofile", "", "")
+	labels := fs.String("labels", "", "comma separated label prefixes")
 	fs.Parse(args)
 	if *prof != "" {
 		f, _ := os.Create(*prof)
@@ -261,9 +270,12 @@ func cmdRun(args []string) int {
 		return 2
 	}
 	fmt.Printf("loaded in %v\n", ld.dur)
-	cfg := symgo.Config{Workers: *workers, MaxPaths: *maxPaths, Solver: solverKind(*solver), QueryTimeout: *qt}
+	cfg := symgo.Config{Workers: *workers, MaxPaths: *maxPaths, Solver: solverKind(*solver), QueryTimeout: *qt, ForkStats: os.Getenv("VX_FORKSTATS") != ""}
 	if *deadline > 0 {
 		cfg.Deadline = time.Now().Add(*deadline)
+	}
+	if *labels != "" {
+		cfg.Labels = strings.Split(*labels, ",")
 	}
 	var ss sumSet
 	if *sums != "" {
@@ -294,6 +306,7 @@ func printReport(rep *harnessReport) {
 	r := rep.Res
 	fmt.Printf("harness %s.%s: paths=%d infeasible=%d decisions=%d instrs=%d queries=%d (sat %d unsat %d unknown %d) solver=%v wall=%v depth=%d\n",
 		rep.Pkg, rep.Func, r.Paths, r.Infeasible, r.Decisions, r.Instrs, r.Queries, r.Sat, r.Unsat, r.Unknown, r.SolverTime.Round(time.Millisecond), r.Wall.Round(time.Millisecond), r.MaxDepth)
+	fmt.Printf("  query cache hits so far: %d\n", symgo.CacheHitsTotal)
 	var labels []string
 	for l := range r.Labels {
 		labels = append(labels, l)
@@ -313,6 +326,23 @@ func printReport(rep *harnessReport) {
 	}
 	for _, in := range r.Inconclusive {
 		fmt.Printf("  INCONCLUSIVE: %s\n", in)
+	}
+	if len(r.ForkSites) > 0 {
+		type kv struct {
+			k string
+			v int
+		}
+		var l []kv
+		for k, v := range r.ForkSites {
+			l = append(l, kv{k, v})
+		}
+		sort.Slice(l, func(i, j int) bool { return l[i].v > l[j].v })
+		for i, e := range l {
+			if i >= 25 {
+				break
+			}
+			fmt.Printf("  fork %6d  %s\n", e.v, e.k)
+		}
 	}
 	for _, v := range r.Violations {
 		fmt.Printf("  cex %s: %s\n", v.Label, modelString(v.Model))
@@ -529,6 +559,7 @@ func cmdCheck(args []string) int {
 		}
 		for _, fn := range h.Funcs {
 			c := cfg
+			c.Labels = h.Labels
 			rep, err := runHarness(ld, h.Pkg, fn, sumSet{h.Summaries, h.Specs, h.Lemmas}, c, known, true, *id)
 			if err != nil {
 				inconclusive = append(inconclusive, fn+": "+err.Error())
